@@ -15,6 +15,8 @@ structure Tot where
   lines : Nat := 0
   diffs : Nat := 0
   monitor : Nat := 0
+  /-- cases the harness could not set up (environment) -/
+  env : Nat := 0
 
 def splitArrow (line : String) : String × String :=
   match line.splitOn " => " with
@@ -22,23 +24,35 @@ def splitArrow (line : String) : String × String :=
   | a :: rest => (a, " => ".intercalate rest)
   | [] => ("", "")
 
+/-- outputs with which a harness reports that the machine, not the code, prevented the case from being set up -/
+def isEnvFailure (impl : String) : Bool :=
+  impl.startsWith "env-error" ||
+  ["address already in use", "cannot assign requested address", "too many open files"].any fun m =>
+    (impl.splitOn m).length > 1
+
 partial def loop (ck : Checker) (h : IO.FS.Stream) (out : IO.FS.Stream)
-    (st : ck.σ) (caseId : String) (lineNo : Nat) (dead : Bool) (tot : Tot) : IO Tot := do
+    (st : ck.σ) (caseId : String) (lineNo : Nat) (dead : Bool) (skip : Bool) (tot : Tot) : IO Tot := do
   let raw ← h.getLine
   if raw.isEmpty then
-    let tot ← finishCase st dead tot
+    let tot ← finishCase st skip tot
     return tot
   let line := chomp raw
   if line.isEmpty then
-    loop ck h out st caseId lineNo dead tot
+    loop ck h out st caseId lineNo dead skip tot
   else if line.startsWith "case " then
-    let tot ← finishCase st dead tot
-    loop ck h out ck.init (String.ofList (line.toList.drop 5)) 0 false { tot with cases := tot.cases + 1 }
+    let tot ← finishCase st skip tot
+    loop ck h out ck.init (String.ofList (line.toList.drop 5)) 0 false false { tot with cases := tot.cases + 1 }
   else
     -- after the first DIFF of a case the model state is no longer meaningful, but the property monitors keep
     -- their own books on the implementation's outputs: keep stepping so that they can still turn the
     -- disagreement into a concrete failing input (further DIFFs of the case are not reported)
     let (op, impl) := splitArrow line
+    -- the harness could not set the case up for a reason of the machine (address in use, …): the rest of the
+    -- case says nothing about the code; it is counted and skipped
+    if isEnvFailure impl || skip then
+      if !skip then out.putStrLn s!"NOTE case={caseId} line={lineNo} key=env-error"
+      loop ck h out st caseId (lineNo + 1) dead true { tot with lines := tot.lines + 1, env := tot.env + (if skip then 0 else 1) }
+    else
     let r := ck.step st (fields op) impl
     let mut tot := { tot with lines := tot.lines + 1 }
     let mut dead := dead
@@ -60,9 +74,10 @@ partial def loop (ck : Checker) (h : IO.FS.Stream) (out : IO.FS.Stream)
       out.putStrLn s!"MONITOR case={caseId} line={lineNo} key={k} op={op} msg={msg}"
       tot := { tot with monitor := tot.monitor + 1 }
     | none => pure ()
-    loop ck h out r.state caseId (lineNo + 1) dead tot
+    loop ck h out r.state caseId (lineNo + 1) dead false tot
 where
-  finishCase (st : ck.σ) (_dead : Bool) (tot : Tot) : IO Tot := do
+  finishCase (st : ck.σ) (skipped : Bool) (tot : Tot) : IO Tot := do
+    if skipped then return tot
     match ck.finish st with
     | some (k, msg) =>
       out.putStrLn s!"MONITOR case={caseId} line=end key={k} op=- msg={msg}"
@@ -77,7 +92,7 @@ def main (args : List String) : IO UInt32 := do
     | some ck =>
       let stdin ← IO.getStdin
       let stdout ← IO.getStdout
-      let tot ← loop ck stdin stdout ck.init "-" 0 false {}
-      stdout.putStrLn s!"SUMMARY cases={tot.cases} lines={tot.lines} diffs={tot.diffs} monitor={tot.monitor}"
+      let tot ← loop ck stdin stdout ck.init "-" 0 false false {}
+      stdout.putStrLn s!"SUMMARY cases={tot.cases} lines={tot.lines} diffs={tot.diffs} monitor={tot.monitor} env={tot.env}"
       return 0
   | _ => IO.eprintln "usage: serfdriver <property-id> < trace"; return 2
